@@ -119,8 +119,34 @@ def run(mid, props, runs=0, tier="quick"):
     json.dump(meta, open(os.path.join(dst, "meta.json"), "w"), indent=1)
 
 
+def benign(mid):
+    """A behaviour-preserving refactor delivered by a sub-agent: every check must stay quiet."""
+    import check
+
+    src = f"/tmp/mut/{mid}/_deliver"
+    dst = os.path.join(HERE, "seeded", "benign", mid)
+    os.makedirs(dst, exist_ok=True)
+    for f in ("patch.diff", "equiv.py", "notes.md"):
+        if os.path.exists(os.path.join(src, f)):
+            shutil.copy(os.path.join(src, f), os.path.join(dst, f))
+    patch = os.path.join(dst, "patch.diff")
+    props = ["C06", "C07", "C08", "C12", "C16", "C18"]
+    res = check.run_against_patch(patch, props, keep_log=os.path.join(tempfile.gettempdir(), f"benign_{mid}.log"))
+    meta = {"id": mid, "kind": "behaviour-preserving refactor (expected: every check exits 0)", "checks": {}}
+    for p, (rc, fps, details, tail) in res.items():
+        meta["checks"][p] = {"exit": rc, "fingerprints": fps[:5], "first_detail": details[:2]}
+        print(mid, p, "QUIET" if rc == 0 else ("ALARM" if rc == 1 else "HARNESS"), fps[:3])
+        if rc == 2:
+            print(tail)
+    meta["quiet"] = all(v["exit"] == 0 for v in meta["checks"].values())
+    json.dump(meta, open(os.path.join(dst, "meta.json"), "w"), indent=1)
+
+
 if __name__ == "__main__":
     cmd = sys.argv[1]
+    if cmd == "benign":
+        benign(sys.argv[2])
+        sys.exit(0)
     if cmd == "confirm":
         ok = confirm(sys.argv[2], sys.argv[3], suite="--no-suite" not in sys.argv)
         sys.exit(0 if ok else 1)
